@@ -259,7 +259,7 @@ def judge_sheet(sh, al, rules, res, text, nodes, reversed_res=None):
                         for t in sorted({t for rr in rules for t, _ in rr["extends"]}):
                             cr_t = {k: v for k, v in cr.items() if k != "__frozen__" and k[0] == t}
                             single |= u.match_all(orig, cr_t)[e]
-                        facts = dict(facts, missing_only_where_two_targets_are_credited_at_once=(miss & single) == 0)
+                        facts = dict(facts, missing_only_where_two_targets_are_credited_at_once=(miss & single) == 0, **shape_facts(rules, parsed))
                         sh.violation("incomplete:" + h, "rule %d `%s` -> `%s` does not match element #%d of %s, which matches once extenders are credited (all extenders are single compounds)\n%s" % (
                             i, r["sel"], sel.to_text(new), e, u.witness(miss), text), rp, dict(facts, rule=i, rewritten=sel.to_text(new), dom=u.witness(miss)))
                         return
